@@ -89,7 +89,7 @@ def check_moves(moves, free, width):
     for (s, d), wd in zip(moves, widths):
         ok = regs[d][0] == init[s][0] and (regs[d][1] == "full" or wd == 32 or s == d)
         if not ok:
-            return {"moves": moves, "free": free, "width": width, "inputs": {"int_cycle_of_3_or_more_without_scratch": long_int_cycle_without_scratch, "failing_destination_is_a_self_move": s == d}, "emitted": [o.name + str([x.type.register_name.data for x in o.operands]) + "->" +
+            return {"moves": moves, "free": free, "width": width, "inputs": {"int_cycle_of_3_or_more_without_scratch": long_int_cycle_without_scratch, "failing_destination_is_a_self_move_whose_register_also_feeds_another_move": s == d and any(s2 == s and d2 != s for s2, d2 in moves)}, "emitted": [o.name + str([x.type.register_name.data for x in o.operands]) + "->" +
                     str([x.type.register_name.data for x in o.results]) for o in module.body.block.ops if o.name.startswith("riscv")],
                     "why": f"after the sequence {d} holds {sorted(regs[d][0])} ({regs[d][1]}), expected the old value of {s} at width {wd}", "key": "C20/simultaneous-assignment"}
     dsts = {d for _, d in moves}
